@@ -410,7 +410,9 @@ func c19run(w *report.W) {
 				{"ToMap", true, func() string { return fmt.Sprint(len(m.ToMap()), ordered.ToMapRecursive(m) != nil) }},
 				{"MarshalJSON", true, func() string { b, _ := json.Marshal(m); return string(b) }},
 				{"MarshalYAML", true, func() string { b, _ := yaml.Marshal(m); return string(b) }},
-				{"Equal", true, func() string { return fmt.Sprint(ordered.Equal(m, other), ordered.Equal(other, m), ordered.Equal(m, m)) }},
+				{"Equal", true, func() string {
+					return fmt.Sprint(ordered.Equal(m, other), ordered.Equal(other, m), ordered.Equal(m, m))
+				}},
 				{"TransformValues", true, func() string { return fmt.Sprint(ordered.TransformValues(m, func(v any) int { return 1 }).Len()) }},
 			})
 			_ = model
@@ -472,14 +474,18 @@ func c19run(w *report.W) {
 					return fmt.Sprint(err)
 				}},
 				c19op{"Matrix.IsEmpty", true, func() string { return fmt.Sprint(cs.Matrix.IsEmpty()) }},
-				c19op{"rejected-permutation", true, func() string { return fmt.Sprint(cs.InterpolateMatrixPermutation(pipeline.MatrixPermutation{"no-such-dim": "x", "another": "y", "third": "z"})) }},
+				c19op{"rejected-permutation", true, func() string {
+					return fmt.Sprint(cs.InterpolateMatrixPermutation(pipeline.MatrixPermutation{"no-such-dim": "x", "another": "y", "third": "z"}))
+				}},
 			)
 		}
 		c19guard(w, "pipeline ["+doc.Descr+"]", &p, ops)
 		// mutating lifecycle operations: only the globals are guarded
 		c19guard(w, "pipeline ["+doc.Descr+"]", &p, []c19op{
 			{"Interpolate(nil env)", false, func() string { return fmt.Sprint(p.Interpolate(nil, false)) }},
-			{"Interpolate(env)", false, func() string { return fmt.Sprint(p.Interpolate(verifexport.NewEnv(true, map[string]string{"A": "1"}), true)) }},
+			{"Interpolate(env)", false, func() string {
+				return fmt.Sprint(p.Interpolate(verifexport.NewEnv(true, map[string]string{"A": "1"}), true))
+			}},
 			{"SignSteps", false, func() string {
 				return fmt.Sprint(signature.SignSteps(sigCtx, p.Steps, k.Sign, "repo", signature.WithEnv(p.Env.ToMap())) != nil)
 			}},
